@@ -51,12 +51,12 @@ def make_wsdl(ret_type):
 # value trees: ("struct", type, [(name, value)]) | ("array", itemtype, [values]) | ("str", s) | ("int", n)
 
 def gen_person(rng, depth=0):
-    fields = [("name", ("str", rng.choice(["Ann", "Bob", "Zoë <&>", ""]))), ("age", ("int", rng.randint(0, 99)))]
+    fields = [("name", ("str", rng.choice(["Ann", "Bob", "Zoë <&>", "", " padded "]))), ("age", ("int", rng.randint(0, 99)))]
     if rng.random() < 0.6:
         fields.append(("home", ("struct", "Addr", [("city", ("str", rng.choice(["Rome", "Oslo"]))),
                                                    ("zip", ("int", rng.randint(1000, 9999)))])))
     if rng.random() < 0.6:
-        fields.append(("tags", ("array", "xsd:string", [("str", rng.choice(["t1", "t2", "x y"]))
+        fields.append(("tags", ("array", "xsd:string", [("str", rng.choice(["t1", "t2", "x y", "  lead", "trail "]))
                                                         for _ in range(rng.choice([0, 1, 2, 3]))])))
     if depth == 0 and rng.random() < 0.25:
         return ("struct", "Employee", fields + [("dept", ("str", rng.choice(["R&D", "ops"])))])
